@@ -59,6 +59,7 @@ type DocSpec struct {
 
 	TextOps  int  `json:"text_ops"`  // 0 Tj only, 1 TJ arrays, 2 mixed incl. Tm / T* positioning
 	FormXObj bool `json:"form_xobj"` // some lines live in a Form XObject
+	FormNest int  `json:"form_nest,omitempty"` // that form invokes this many forms of its own, one line each
 
 	BlankPages    bool `json:"blank_pages,omitempty"` // some pages show no text at all
 	Headings      bool `json:"headings,omitempty"`    // some lines are short and set much larger; body lines are indented differently
@@ -151,6 +152,7 @@ type docState struct {
 	fontDictNum int
 	resDict     Dict
 	xobjNum     int
+	xobjKids    []int // forms invoked by the form (Fx2, Fx3, ...)
 	formOwner   *pageState // the one page whose last line is drawn by the form XObject
 	groupOfNode map[int]int // ancestor node -> attribute group (-1: none of its own, inherits from the root)
 	groups      int
@@ -341,7 +343,13 @@ func (d *docState) buildBase(set map[int]Obj) {
 	// pages must be numbered in document order = depth-first order of the tree, so hand them out in order
 	if sp.FormXObj {
 		d.xobjNum = d.alloc()
-		d.resDict = append(d.resDict, KV{"XObject", Dict{{"Fx1", d.ref(d.xobjNum)}}})
+		xd := Dict{{"Fx1", d.ref(d.xobjNum)}}
+		for k := 0; k < sp.FormNest; k++ {
+			n := d.alloc()
+			d.xobjKids = append(d.xobjKids, n)
+			xd = append(xd, KV{"Fx" + strconv.Itoa(k+2), d.ref(n)})
+		}
+		d.resDict = append(d.resDict, KV{"XObject", xd})
 	}
 	if sp.ResIndirect {
 		d.resNum = d.alloc()
@@ -390,6 +398,11 @@ func (d *docState) buildBase(set map[int]Obj) {
 		// defined by fillPage of the first page that used it; if nobody did, define an empty form
 		if _, ok := set[d.xobjNum]; !ok {
 			set[d.xobjNum] = &Stream{Dict: Dict{{"Type", Name("XObject")}, {"Subtype", Name("Form")}, {"BBox", Arr{0, 0, 612, 792}}}, Plain: []byte("q Q\n")}
+		}
+		for _, n := range d.xobjKids {
+			if _, ok := set[n]; !ok {
+				set[n] = &Stream{Dict: Dict{{"Type", Name("XObject")}, {"Subtype", Name("Form")}, {"BBox", Arr{0, 0, 612, 792}}}, Plain: []byte("q Q\n")}
+			}
 		}
 	}
 	if d.resNum != 0 {
@@ -834,20 +847,49 @@ func (d *docState) writePageObjects(p *pageState, lines []Line, set map[int]Obj,
 	useForm := p == d.formOwner && len(lines) >= 2
 	prog := d.contentFor(mainLines, r)
 	if useForm {
-		// the last line is drawn by a form XObject invoked at the end
-		formLines = lines[len(lines)-1:]
-		mainLines = lines[:len(lines)-1]
+		// the last line is drawn by a form XObject invoked at the end; with nesting the
+		// form draws one line and then invokes forms of its own that draw one line each
+		nest := 0
+		if d.w.revs == 0 {
+			for nest < len(d.xobjKids) && len(lines) >= 3+nest {
+				nest++
+			}
+		}
+		formLines = lines[len(lines)-1-nest : len(lines)-nest]
+		mainLines = lines[:len(lines)-1-nest]
 		prog = d.contentFor(mainLines, r)
 		prog = append(prog, []byte("q /Fx1 Do Q\n")...)
 		fp := d.contentFor(formLines, r)
+		fontRes := d.resDict.Get("Font")
+		if p.group > 0 {
+			fontRes = d.groupResources(p.group).Get("Font")
+		}
+		// content decisions first, storage decisions (resources of their own, filter
+		// geometry) afterwards: the latter draw differently from layout to layout
+		var kidsDict Dict
+		var kidProgs [][]byte
+		for k := 0; k < nest; k++ {
+			fp = append(fp, []byte("q /Fx"+strconv.Itoa(k+2)+" Do Q\n")...)
+			kidProgs = append(kidProgs, d.contentFor(lines[len(lines)-nest+k:len(lines)-nest+k+1], r))
+		}
+		for k, kp := range kidProgs {
+			name := "Fx" + strconv.Itoa(k+2)
+			ks := &Stream{Dict: Dict{{"Type", Name("XObject")}, {"Subtype", Name("Form")}, {"BBox", Arr{0, 0, 612, 792}}}, Plain: kp}
+			if r.Bool() {
+				ks.Dict = append(ks.Dict, KV{"Resources", Dict{{"Font", fontRes}}})
+			}
+			ks.Filters = d.chain(len(kp), r)
+			set[d.xobjKids[k]] = ks
+			kidsDict = append(kidsDict, KV{name, d.ref(d.xobjKids[k])})
+		}
 		fs := &Stream{Dict: Dict{{"Type", Name("XObject")}, {"Subtype", Name("Form")}, {"BBox", Arr{0, 0, 612, 792}}}, Plain: fp}
 		if r.Bool() {
 			// a form may carry its own resources; without them it uses the page's
-			if p.group > 0 {
-				fs.Dict = append(fs.Dict, KV{"Resources", Dict{{"Font", d.groupResources(p.group).Get("Font")}}})
-			} else {
-				fs.Dict = append(fs.Dict, KV{"Resources", Dict{{"Font", d.resDict.Get("Font")}}})
+			own := Dict{{"Font", fontRes}}
+			if nest > 0 {
+				own = append(own, KV{"XObject", kidsDict})
 			}
+			fs.Dict = append(fs.Dict, KV{"Resources", own})
 		}
 		fs.Filters = d.chain(len(fp), r)
 		set[d.xobjNum] = fs
